@@ -43,6 +43,58 @@ Theorem plain_wf : forall t, ~ In ESC t -> wf_cells (map (fun c => mkcell [] c f
 Proof. exact plain_wf_fact. Qed.
 Print Assumptions plain_wf.
 
+(* ---- nesting and concatenation of the style functions, and layout afterwards ---- *)
+From Servitor Require Import Oracles Style.
+From Servitor.Facts Require Import StyleFacts.
+
+(* on well-formed text Apply acts cell-wise *)
+Theorem apply_wf_text :
+  forall (cs : list cell) (style : text),
+  wf_cells cs -> apply (collapse cs) style = apply_cells style cs.
+Proof. exact apply_wf_text_fact. Qed.
+Print Assumptions apply_wf_text.
+
+(* every style function contributes a non-clearing parameter string (given validated colours, C19) *)
+Theorem sfun_param_ok :
+  forall (col : colors) (f : sfun),
+  colors_ok col ->
+  forallb is_param (sfun_param col f) = true /\
+  sfun_param col f <> [] /\ sfun_param col f <> [CH_0].
+Proof. exact sfun_param_ok_fact. Qed.
+Print Assumptions sfun_param_ok.
+
+Theorem sterm_eval_wf :
+  forall (col : colors) (x : sterm),
+  colors_ok col ->
+  sterm_plain_ok x ->
+  exists cs : list cell,
+  wf_cells cs /\
+  sterm_eval col x = collapse cs /\
+  map (fun c : cell => (letter c, cell_attrs c)) cs = sterm_expect col [] x.
+Proof. exact sterm_eval_wf_fact. Qed.
+Print Assumptions sterm_eval_wf.
+
+(* every visible character carries exactly the attributes of the style functions wrapped around it, however nested or concatenated; nothing is active at the end *)
+Theorem style_compose :
+  forall (col : colors) (x : sterm),
+  colors_ok col ->
+  sterm_plain_ok x -> display (sterm_eval col x) = (sterm_expect col [] x, []).
+Proof. exact style_compose_fact. Qed.
+Print Assumptions style_compose.
+
+Theorem style_neutral :
+  forall (col : colors) (x : sterm),
+  colors_ok col -> sterm_plain_ok x -> neutral_b (sterm_eval col x) = true.
+Proof. exact style_neutral_fact. Qed.
+Print Assumptions style_neutral.
+
+(* word-wrapping keeps the attribute set of every visible character it keeps; the result is neutral at every line end *)
+Theorem wrap_attrs :
+  forall (t : text) (w : Z),
+  (1 <= w)%Z -> wf_cells (expand t) -> layout_attrs_ok t (wrap t w) = true.
+Proof. exact wrap_attrs_fact. Qed.
+Print Assumptions wrap_attrs.
+
 Example c14_example :
   display (apply (apply [97; 10; 98]%N [49]%N) [52]%N)
   = ([(97, [[52]; [49]]); (10, []); (98, [[52]; [49]])]%N, []).
